@@ -29,7 +29,7 @@ def gen_cfg(rng, thorough):
     quad = rng.choice(['RADAU-RIGHT', 'RADAU-RIGHT', 'LOBATTO', 'GAUSS'])
     levels = []
     lam = tuple(rf(rng) for _ in range(dim)); c = tuple(rf(rng) for _ in range(dim))
-    lamE = tuple(rf(rng, -2, 1) for _ in range(dim)); mu = tuple(rf(rng, -1, 1, (2, 4)) for _ in range(dim))
+    lamE = tuple(rf(rng, -2, 1) for _ in range(dim)); mu = tuple(F(0) for _ in range(dim))   # a quadratic term would double the digits of the exact rationals every evaluation
     for l in range(nl):
         lv = dict(num_nodes=nn[l], quad_type=quad, dim=dim, QI=rng.choice(['IE', 'LU', 'MIN-SR-S', 'TRAP', 'IEpar']))
         if kind == 'GI':
@@ -48,6 +48,12 @@ def gen_cfg(rng, thorough):
                finter=rng.random() < 0.3, do_coll_update=(quad == 'GAUSS') or rng.random() < 0.2)
     if kind == 'IMEX' and cfg['finter']:
         cfg['finter'] = False     # FracF2 has no subtraction; values-only prolongation
+    if cfg['num_procs'] > 1 and (quad == 'GAUSS' or cfg['do_coll_update']):
+        # the controller (rightly) refuses PFASST/MSSDC unless uend = u_M: keep the configuration valid
+        cfg['do_coll_update'] = False
+        if quad == 'GAUSS':
+            for lv in cfg['levels']:
+                lv['quad_type'] = 'RADAU-RIGHT'
     nsteps = rng.choice([1, 2, 3]) * num_procs + rng.choice([0, 0, 1])
     u0 = [rf(rng, -3, 3) for _ in range(dim)]
     if all(v == 0 for v in u0):
@@ -85,7 +91,7 @@ def run(ck):
                'iteration performed or stop at iteration 0')
     ck.check_props(required=['C03_residual_is_defect', 'C03_done_sound', 'C03_iter_le_maxiter', 'C03_sweep_guard_vacuous_refuted'])
     from pySDC.helpers.stats_helper import get_sorted
-    nruns = 240 if thorough else 60
+    nruns = 1200 if thorough else 240
     blocks = []     # (desc, maxiter, atd, nprocs, rounds(list of list of bool), observed finishing iters)
     n_events = 0
     hist = {}
